@@ -808,8 +808,9 @@ func main() {
 			"Go's allocator does not move heap objects: backing-array identity is read as an address within one execution only",
 		},
 		QuickBudget: 50e9, ThoroughBudget: 22 * 60e9,
-		Run:    run,
-		Replay: replay,
-		Extra:  extra,
+		Run:              run,
+		Replay:           replay,
+		CrashIsViolation: true, // a worker process that dies while it executes a case on the library is a verdict on that case
+		Extra:            extra,
 	})
 }
